@@ -129,6 +129,25 @@ func marshalBytes(c *explore.Ctx) {
 	} else if !bytes.Equal(got, want) {
 		c.Fail("Marshal:bytes-differ:"+p.String()+":"+typeSet(ast), "Marshal % x, specification % x (%s) for %s", trunc(got), trunc(want), firstDiff(got, want), desc)
 	}
+	// the same bytes come out of an Encoder, fresh or previously bound to a writer of another protocol
+	if !tgen.HasMultiEntryMap(v) {
+		for _, prev := range protos {
+			var buf, other bytes.Buffer
+			var eerr error
+			if pv, ps := explore.Catch(func() {
+				e := thrift.NewEncoder(impl(prev).NewWriter(&other))
+				e.Encode(v.Interface())
+				e.Reset(impl(p).NewWriter(&buf))
+				eerr = e.Encode(v.Interface())
+			}); pv != nil {
+				c.Fail("Encoder:panic:"+ps, "Encoder (Reset from %s) panicked: %v for %s", prev, pv, desc)
+				continue
+			}
+			if eerr != nil || !bytes.Equal(buf.Bytes(), want) {
+				c.Fail("Encoder:bytes-differ:after-Reset-from-"+prev.String()+":"+p.String(), "Encoder previously bound to a %s writer then Reset writes % x (err %v), specification % x (%s) for %s", prev, trunc(buf.Bytes()), eerr, trunc(want), firstDiff(buf.Bytes(), want), desc)
+			}
+		}
+	}
 	c.NontrivialStr(s.String(), tgen.Describe(v), p.String())
 	c.Outcome(fmt.Sprintf("%s fields=%d", p, len(ast.Fields)))
 	if c.WantSample() || c.Failed() {
